@@ -1203,6 +1203,11 @@ fn write_attribute_value<W: Write>(
                             p.value_expr(w)?;
                             write!(w, ")")?;
                             Ok(())
+                        })?;
+                        // (`style` may be a property of a child component, applied when the element ends)
+                        w.expr_stmt(|w| {
+                            write!(w, "E(N)")?;
+                            Ok(())
                         })
                     })?;
                 }
